@@ -269,7 +269,7 @@ def gen_literal_body(rng):
 
 def stage1(run):
     rng = run.rng
-    n = 60000 if run.thorough else 9000
+    n = 150000 if run.thorough else 20000
     cases = [gen_mofstr_case(rng, i) for i in range(n)]
     # deterministic sweep: every maxline 40..120 x every position of one escape around the fold column
     sweep = []
@@ -317,7 +317,7 @@ def stage1(run):
             run.disagree({'op': 'escape', 's': s}, a, real, 'escape')
 
     # lexer tokens + _fixStringValue on a near-miss stream and on the real mofstr outputs
-    lits = [gen_literal_body(rng) for _ in range(12000 if run.thorough else 3000)]
+    lits = [gen_literal_body(rng) for _ in range(40000 if run.thorough else 6000)]
     reqs, meta = [], []
     for b in lits:
         q = '"' if rng.random() < 0.8 else "'"
@@ -343,7 +343,7 @@ def stage1(run):
 
     # stringValueList through the real parser: real mofstr outputs + near-miss texts
     sl = [t for (_, t) in texts[:: (3 if run.thorough else 6)]]
-    for _ in range(3000 if run.thorough else 600):
+    for _ in range(10000 if run.thorough else 1500):
         parts = ['"' + gen_literal_body(rng) + '"' for _ in range(rng.choice([1, 1, 2, 3]))]
         sl.append(rng.choice(['', ' ', '\n   ']).join(parts))
     ans = common.run_driver(PROP, [{'op': 'strlist', 'text': common.cps(t)} for t in sl])
@@ -378,7 +378,7 @@ def stage1_values(run):
     """K for _value_tomof / mofval: arrays and scalars of every type, NULL items, placement bookkeeping"""
     from pywbem import _cim_obj
     rng = run.rng
-    n = 12000 if run.thorough else 2500
+    n = 40000 if run.thorough else 6000
     reqs, cases = [], []
     for i in range(n):
         c = fold_params(rng)
@@ -465,7 +465,7 @@ def real_number_token(text):
 
 def stage1_numbers(run):
     rng = run.rng
-    n = 20000 if run.thorough else 4000
+    n = 60000 if run.thorough else 8000
     texts = [gen_numeric_text(rng) for _ in range(n)]
     ans = common.run_driver(PROP, [{'op': 'lexnum', 'text': common.cps(t)} for t in texts])
     for t, a in zip(texts, ans):
@@ -1023,7 +1023,7 @@ def std_decls(rng):
 
 def stage2(run):
     rng = run.rng
-    n_q, n_c, n_i = (6000, 3000, 3000) if run.thorough else (700, 350, 350)
+    n_q, n_c, n_i = (20000, 10000, 10000) if run.thorough else (2000, 1000, 1000)
     maxlines = lambda: rng.choice([40, 60, 80, 80, 80, 100, 120, rng.randint(40, 120)])  # noqa: E731
     for _ in range(n_q):
         qd = gen_qualdecl(rng)
